@@ -53,7 +53,10 @@ def enumerate_cases(chk, n, mode, chunks="all", name=None, pre=False):
     return cases
 
 
-def replay_verdicts(chk, th, cases, what, seed, variant="plain", shape_sink=None, prelude="", split=False):
+SHADOW = ["", "x9 := 1", "DEFINE q AS r END DEFINE", "x9 := RUN nope WITH 1 END"]
+
+
+def replay_verdicts(chk, th, cases, what, seed, variant="plain", shape_sink=None, prelude="", split=False, shadow=0.0):
     """compile every case; verdict must equal the specification's. Returns number compared."""
     r = random.Random(seed)
     usable = [c for c in cases if not c["dup"]]
@@ -72,6 +75,10 @@ def replay_verdicts(chk, th, cases, what, seed, variant="plain", shape_sink=None
             inputs.append({"i": i, "files": files, "main": "m"})
         else:
             inputs.append({"i": i, "files": {"m": prelude + render(toks, r)}, "main": "m"})
+        if shadow and r.random() < shadow:
+            # an unrelated supplied file that happens to carry the hidden standard-macro file's name: the source does not include it,
+            # so the verdict (and the built-in sugar) must not depend on it
+            inputs[-1]["files"]["__standards__"] = r.choice(SHADOW)
     n = 0
     for recs, rc, err, part in parallel_th(th, ["compile"], inputs, chunks=NCPU, timeout=1800):
         got = {x["i"]: x for x in recs if "ok" in x}
